@@ -149,6 +149,14 @@ fn code_of(gene: &PushGene) -> u64 {
         PushGene::Instruction(i) => 1 + (0..3).find(|j| &instr_of(*j) == i).expect("unknown instruction") as u64,
     }
 }
+/// inverse of `code_of`
+fn gene_of_code(x: u64) -> PushGene {
+    match x {
+        0 => PushGene::Close,
+        1..=1_000_000 => PushGene::Instruction(instr_of((x - 1) as usize)),
+        _ => parent_gene((x - 1_000_001) as usize),
+    }
+}
 fn parent_gene(i: usize) -> PushGene { PushGene::Instruction(PushInstruction::InputVar(VariableName::from(format!("p{i}").as_str()))) }
 fn close_bits_of<T: Distribution<PushInstruction> + std::fmt::Debug>(gg: &GeneGenerator<T>) -> u32 {
     let s = format!("{gg:?}");
@@ -290,7 +298,7 @@ fn run_umad(c: &UmadCase, rng: &mut LinRng, mutant: Mutant) -> String {
                 }
             }
             UFlavour::Plushy => {
-                let g = Plushy::new(c.parent.iter().map(|x| parent_gene((*x - 1_000_001) as usize)));
+                let g = Plushy::new(c.parent.iter().map(|x| gene_of_code(*x)));
                 let gg = ProbeInstr { n: c.n_instr }.into_gene_generator_with_close_probability(f32::from_bits(c.close));
                 let m = mk_umad(c, gg); warm(&m, &g, c.parent.len() + c.n_instr);
                 m.mutate(g, rng).unwrap().get_genes().iter().map(code_of).collect()
@@ -318,8 +326,12 @@ fn umad_oracle(c: &UmadCase, real: &str) -> Option<String> {
         if empty_rate.is_none() && !out.is_empty() { return Some("empty-genome addition is disabled but a gene was added".into()); }
         if let Some(e) = empty_rate { if f64::from_bits(e) == 0.0 && !out.is_empty() { return Some("empty-genome addition rate 0 but a gene was added".into()); } }
     }
-    if c.fl == UFlavour::Bits {
+    let untagged = c.fl == UFlavour::Bits || (c.fl == UFlavour::Plushy && c.parent.iter().any(|x| *x <= 1_000_000));
+    if untagged {
         if n > 0 && out.len() > 2 * n { return Some("more than one insertion per parent position".into()); }
+        if n > 0 && a == 1.0 && d == 0.0 && !(out.len() == 2 * n && (0..n).all(|i| out[2 * i] == c.parent[i])) {
+            return Some("addition 1 / deletion 0 must follow every parent gene by exactly one new gene".into());
+        }
     } else {
         let is_old = |x: u64| if c.fl == UFlavour::VectorU32 { x < 100_000 } else { x > 1_000_000 };
         let idx = |x: u64| if c.fl == UFlavour::VectorU32 { x as i64 } else { (x - 1_000_001) as i64 };
@@ -431,7 +443,13 @@ fn gen_umad(g: &mut SplitMix, distinct_rates: bool) -> UmadCase {
     let parent: Vec<u64> = match fl {
         UFlavour::Bits => (0..n).map(|_| g.below(2)).collect(),
         UFlavour::VectorU32 => (0..n as u64).collect(),
-        UFlavour::Plushy => (0..n as u64).map(|j| 1_000_001 + j).collect(),
+        // mostly tagged parents (structure oracle); also genomes of close markers only and mixtures of close
+        // markers, instructions of the generator's own alphabet and tagged genes (repeated, untagged genes)
+        UFlavour::Plushy => match g.below(6) {
+            0 => vec![0; n],
+            1 => (0..n as u64).map(|j| match g.below(3) { 0 => 0, 1 => 1 + g.below(3), _ => 1_000_001 + j }).collect(),
+            _ => (0..n as u64).map(|j| 1_000_001 + j).collect(),
+        },
     };
     UmadCase { fl, ctor, add, del, empty, close: gen_f32_rate(g), n_instr: 1 + g.below(8) as usize, parent }
 }
